@@ -39,9 +39,12 @@ RULE = (
     "(JointDistributionModel of Distributions / MultivariateNormal direct or inside a joint, mean-field or one "
     "full-rank normal over several parameters; plain or exp-transformed variational parameters; "
     "scale_tril / TrilExpDiagonal / covariance / precision), the objective (ELBO Monte-Carlo, analytic entropy, "
-    "multi-sample; VR(alpha); CUBO(n); KLpq) with samples S, [S] or [S,K], the torch seed, and an optional "
-    "`samples=` override for the second request. Sub-check 'exact' sets q to the closed-form posterior, "
-    "'pairing' draws arbitrary q parameters; 'grid' enumerates objective x sample-shape form x family x route. "
+    "multi-sample; VR(alpha); CUBO(n); KLpq) with samples S, [S] or [S,K], the torch seed, an optional "
+    "`samples=` override for the second request, how each hyper-parameter of the prior / likelihood is written (bare JSON "
+    "number, list, or Parameter object; drawn per hyper-parameter) and the process default dtype (float64, or float32 "
+    "with every Parameter carrying \"dtype\": \"torch.float64\"; restored after the case). Sub-check 'exact' sets q to the closed-form posterior, "
+    "'pairing' draws arbitrary q parameters; 'grid' enumerates objective x sample-shape form x family x route; 'dtype' enumerates family x route x objective "
+    "x hyper-parameter form x default dtype with hyper-parameters that float32 cannot represent. "
     "Every case makes three evaluation requests separated by the change notification Optimizer issues. "
     "Non-trivial = more than one draw (S*K > 1) and more than one observed number; "
     "distinct = the whole case without the torch seed (floats rounded to 6 digits)."
@@ -60,6 +63,8 @@ ASSUMPTIONS = [
     "either the estimator over all S*K draws or the mean over S of the K-draw estimators",
     "whether the draws are distributed according to q is not observable through the objective's value and is "
     "not asserted (a mutation that mis-assigns slices in CatParameter's setter leaves value and draws consistent)",
+    "under a float32 default dtype the model is float64 through the documented `dtype` attribute of its Parameters; "
+    "CUBO keeps its order n as a tensor of the default dtype, so the chi bound of order float32(n) is accepted as well",
     "tolerance 1e-9 * max(1, |expected|, 1e-3 * max|log p|) ; alpha of VR stays 0.05 away from 1 "
     "(division by 1-alpha), hyper-parameters bounded so that densities stay finite in float64",
 ]
